@@ -32,7 +32,8 @@ CONSTANTS MaxFrames,       \* size of the frame table
           Dev_AddEmptyNameReturns,     \* D9: add_watcher returns (not raises) ValueError for an empty name
           Dev_QuitRefusedWhenBusy,     \* D6: a termination signal that meets a busy slot is refused and dropped
           Dev_SocketEventStartsAll,    \* D13: a socket event starts EVERY watcher, without waiting for any
-          Dev_OpsAfterStop             \* D19: exclusive operations are still accepted once the arbiter is stopping
+          Dev_OpsAfterStop,            \* D19: exclusive operations are still accepted once the arbiter is stopping
+          Dev_ChildrenRelisted         \* D17: stop_children looks every child up again among the worker's CURRENT children
 
 SIGKILL == 9
 SIGTERM == 15
@@ -226,7 +227,8 @@ P_send_signal_process(s, f) ==
                       IF r = 2 THEN Goto(s1, f, "3")
                       ELSE Emit(Goto(s1, f, "3"), Line("ev", WL(s, fr.w), fr.p, 0, "", "kill"))
     [] fr.pc = "3" -> IF fr.l = <<>> THEN Ret(s, f, 1)
-                      ELSE \* Process.send_signal_child lists the worker's children again
+                      ELSE IF ~Dev_ChildrenRelisted THEN Goto(s, f, "4")     \* repaired: the child objects of the first listing
+                      ELSE \* (D17) Process.send_signal_child lists the worker's children again
                            IF s.k[fr.p].st = "reaped"
                            THEN Emit(SetL(s, f, Tail(fr.l)), Line("children", "", fr.p, 0, "nsp", ""))
                            ELSE LET isrun == s.k[fr.p].st = "run"
